@@ -30,14 +30,25 @@ Fixpoint default_then_none (seen : bool) (ps : list (str * gparam)) : bool :=
   | (_, g) :: r => (seen && negb (has_default g)) || default_then_none (seen || has_default g) r
   end.
 
+(* class kind: the str None as default under a scalar type is written as the sentence "Defaults to None", read back as
+   the value None, replaced by the zero value, and (for str) written again as a sentence that ends in a blank *)
+Definition str_none_under_scalar (g : gparam) : bool :=
+  match g_default g, fld_str (g_typ g) with
+  | Some (DV (VStr s)), Some t => str_eqb s (L "None") && is_scalar_shape (type_shape t)
+  | _, _ => false
+  end.
+
 (* The classes are those of C05 that do not depend on the chain, plus default-then-no-default for numpydoc and
-   google.  Normalisations that C05 counts as losses (a default acquired, a full stop added, None turned into a
+   google and the str None under a scalar type for the class kind.  Normalisations that C05 counts as losses (a default acquired, a full stop added, None turned into a
    zero value) are not reasons here: they happen once. *)
 Definition finding_class_C08 (k : kind) (i : ir) : option c05_class :=
   or_else (summary_class i)
     (or_else (return_class [k] i)
        (or_else (params_hard (ir_params i))
-          (if is_ng_kind k && default_then_none false (ir_params i) then Some K05_default_then_none else None))).
+          (if is_ng_kind k && default_then_none false (ir_params i) then Some K05_default_then_none
+           else if is_class_kind k && existsb (fun kv => str_none_under_scalar (snd kv)) (ir_params i)
+                then Some K05_none_scalar
+                else None))).
 
 Definition guard_C08 (k : kind) (i : ir) : bool :=
   c05_domain i && match finding_class_C08 k i with None => true | Some _ => false end.
